@@ -513,3 +513,21 @@ MUTANTS += [
 HARMLESS += [
  {"id": "h-c10-termsym-order-of-tests", "prop": "C10", "file": _EC, "old": "            if original_term + permuted is S.Zero:\n                symmetry[perms] = -1\n            elif original_term - permuted is S.Zero:\n                symmetry[perms] = +1", "new": "            if original_term - permuted is S.Zero:\n                symmetry[perms] = +1\n            elif original_term + permuted is S.Zero:\n                symmetry[perms] = -1"},
 ]
+_IX = "adcgen/indices.py"
+MUTANTS += [
+ {"id": "reg-gen-ignores-used-names", "prop": "C08", "file": _IX, "old": "        new_idx = [idx + counter for idx in self.base[space]\n                   if idx + counter not in used_names]", "new": "        new_idx = [idx + counter for idx in self.base[space]]"},
+ {"id": "reg-gen-counter-not-advanced", "prop": "C08", "file": _IX, "old": "        self._generic_indices[space][spin].extend(new_idx)\n        self._counter[space][spin] += 1", "new": "        self._generic_indices[space][spin].extend(new_idx)"},
+ {"id": "reg-gen-wrong-spin-slot", "prop": "C08", "file": _IX, "old": "        used_names = self._symbols[space][spin]\n", "new": "        used_names = self._symbols[space][\"\"]\n"},
+]
+HARMLESS += [
+ {"id": "h-reg-gen-counter-plus-two", "prop": "C08", "file": _IX, "old": "        self._generic_indices[space][spin].extend(new_idx)\n        self._counter[space][spin] += 1", "new": "        self._generic_indices[space][spin].extend(new_idx)\n        self._counter[space][spin] += 2"},
+]
+MUTANTS += [
+ {"id": "reg-get-keeps-name-in-pool", "prop": "C08", "file": _IX, "old": "            try:\n                self._generic_indices[space][spin].remove(idx)\n            except ValueError:\n                continue\n", "new": ""},
+ {"id": "reg-get-caches-under-no-spin", "prop": "C08", "file": _IX, "old": "            self._symbols[space][spin][idx] = symbol\n", "new": "            self._symbols[space][\"\"][idx] = symbol\n"},
+ {"id": "reg-get-does-not-cache", "prop": "C08", "file": _IX, "old": "            symbol = self._new_symbol(idx, space, spin)\n            self._symbols[space][spin][idx] = symbol\n", "new": "            symbol = self._new_symbol(idx, space, spin)\n"},
+ {"id": "reg-get-always-new-symbol", "prop": "C08", "file": _IX, "old": "            if symbol is not None:\n                ret[key].append(symbol)\n                continue\n", "new": ""},
+ {"id": "reg-generic-too-few-generated", "prop": "C08", "file": _IX, "old": "            while n > len(self._generic_indices[space][spin]):", "new": "            while n > len(self._generic_indices[space][spin]) + 1:"},
+ {"id": "reg-generic-without-spin", "prop": "C08", "file": _IX, "old": "            spins = tuple(spin for _ in range(n))\n            ret.update(self.get_indices(idx, spins))", "new": "            ret.update(self.get_indices(idx))"},
+ {"id": "reg-generic-takes-from-the-end", "prop": "C08", "file": _IX, "old": "            idx = self._generic_indices[space][spin][:n]\n", "new": "            idx = self._generic_indices[space][spin][:n - 1]\n"},
+]
